@@ -32,6 +32,9 @@ CHECKS = {
  "C19": dict(cat="exploration", technique="deterministic simulation: simulated clocks and nanosleep with EINTR/errno injection (sleep and monotonic clauses); seeded boundary-biased sampling against exact i128 arithmetic for the pure arithmetic clause",
    text="Sleep/clock clause: thread::sleep(d) runs on a simulated 128-bit nanosecond clock whose nanosleep is interrupted 0-20 times by decision (remainder written back), may fail once with another errno, and never completes when its end is beyond what the clock can show; Ok must not come before the clock advanced by d, other errnos must surface, unrepresentable durations must be errors, readings never decrease. Arithmetic clause (a pure function - simulation adds nothing to it beyond supplying values): Instants read from a clock set to boundary-biased values and boundary-biased Durations are added, subtracted, differenced and compared, checked against exact i128 arithmetic incl. round trips; SystemTime values down to i64::MIN seconds must not panic. Half of the workers run with overflow checks on. Sampling, not proof.",
    note="Built without the vdso feature (every clock reading passes the sc seam); the arithmetic clause gets seeded input sampling only.", ref="DESIGN.md §3 C19"),
+ "C17": dict(cat="exploration", technique="deterministic simulation: the real ring code over ring memory owned by a simulated kernel actor (ring stub), seeded interleaving of application calls and kernel steps, ownership-map oracle",
+   text="The unmodified setup_io_uring builds an IoUring over memory owned by a ring stub that plays the kernel (io_uring_setup, the three mmaps, consumption, posting). Seeded runs interleave application calls (get slot+stamp, flush, reap, re-read a returned completion) with kernel steps (consume k, post k incl. unsolicited completions) at call granularity, for SQ sizes 1-8, CQ 2-32, both mmap layouts, SQE128/CQE32, and head/tail counters starting at 0, mid-range and u32::MAX-k so that indices wrap. Oracle: per-slot ownership, exactly-once in-order consumption and reaping with the posted content, eventual return of posted completions, no panic (half of the workers with overflow checks on). Sampling, not proof.",
+   note="Uses hook IoUring::verif_set_sq_position (cfg(tiny_std_verif)) to start the private SQ position at the preset counter; the kernel actor follows the documented ring protocol.", ref="DESIGN.md §3 C17"),
 }
 NA = {
  "C07": "pure function of the initial process image (argv/env/aux on the start-up stack): no schedule, clock, fault or second party to simulate",
